@@ -225,7 +225,10 @@ func (c *EvalCtx) eval(e Expr) TV {
 
 func (c *EvalCtx) ident(name string) TV {
 	// parameters of the function under verification are mutable cells: outside old(), their current value counts
-	if c.x != nil && !c.noLocals && !c.inOld && c.x.fn != nil {
+	// ... except in postconditions (and the ghost assignments made at return), where a parameter name denotes the
+	// argument the caller passed, as in every contract language: a body that reassigns the parameter
+	// (ctx, cancel := context.WithTimeout(ctx, d)) must not change what the postcondition says about the argument
+	if c.x != nil && !c.noLocals && !c.inOld && !c.atReturn && c.x.fn != nil {
 		if _, isParam := c.x.params[name]; isParam {
 			// the mutable cell of a parameter carries the parameter's own name; a contract name that differs from it
 			// (the parameter was renamed) must not be looked up among locals and captured variables of that name
@@ -305,12 +308,22 @@ func (c *EvalCtx) ident(name string) TV {
 			return tv
 		}
 		wname := name
-		if r, ok := c.prog.renamedLocal(c.calleeFn, name); ok {
+		wantK := 1
+		if i := strings.Index(wname, "#"); i >= 0 {
+			fmt.Sscanf(wname[i+1:], "%d", &wantK)
+			wname = wname[:i]
+		}
+		if r, ok := c.prog.renamedLocal(c.calleeFn, wname); ok {
 			wname = r
 		}
+		seenK := 0
 		for _, b := range c.calleeFn.Blocks {
 			for _, in := range b.Instrs {
 				if a, ok := in.(*ssa.Alloc); ok && a.Comment == wname {
+					seenK++
+					if seenK != wantK {
+						continue
+					}
 					t := a.Type().(*types.Pointer).Elem()
 					v := c.x.freshValue(c.st, "witness."+name, t)
 					tv := TV{V: v, T: t, S: c.prog.sortOf(t)}
